@@ -112,6 +112,17 @@ def matrix(rnd, hist, k=6):
     paths = [b"/", b"/api", b"/api/", b"/api/v1/x", b"/apiary", b"/apix", b"/app", b"/app/z", b"/docs/a?b=c", b"/up",
              b"/health", b"/other?q=1"]
     reqs = []
+    # targeted requests: every deployed service is addressed on one of its own bindings, with and without an
+    # allowlisted rollout cookie
+    deploys = [c for c in hist if c["op"] == "deploy"]
+    allow_all = sorted({a for c in hist if c["op"] == "rollout_set" for a in c["allow"]})
+    for c in rnd.sample(deploys, min(len(deploys), max(1, k // 3))):
+        host = (rnd.choice(c["hosts"]) if c["hosts"] else b"unknown.org").replace(b"*", b"sub")
+        pre = rnd.choice(c["prefixes"]) if c["prefixes"] else b"/"
+        pre = b"/" + pre.strip(b"/")
+        reqs.append({"host": host, "uri": (pre.rstrip(b"/") + b"/x"), "tls": c["tls"],
+                     "cookie": rnd.choice(allow_all) if allow_all and rnd.random() < 0.7 else None, "method": "GET"})
+    k = max(1, k - len(reqs))
     allowed = sorted({a for c in hist if c["op"] == "rollout_set" for a in c["allow"]}) or [b"alice"]
     for _ in range(k):
         uri = rnd.choice(paths)
